@@ -219,7 +219,7 @@ def shrink(stmts, still_fails, budget=60):
             lst, i = cslots[k]
             if len(lst) <= 1:
                 continue
-            if lst[i][0] == "probe":
+            if lst[i][0] == "probe" and (lst[i][1].startswith("ok@") or lst[i][1].startswith("err@")):
                 continue
             if lst[i][0] == "assign2":
                 j = i + 1
@@ -354,3 +354,149 @@ def run_core_case(ctx, case, area, classify, coverage, compare_kw=None, judge_fi
         else:
             key, nontrivial = cov
             ctx.ok(key, nontrivial, sample={"src": src, "event": repr(event), "outcome": repr(outcome)})
+
+
+# ----------------------------------------------------------------------------------------
+# expression-level shrinking
+
+def _expr_slots(n, out):
+    """Collect (container, key) pairs such that container[key] is an expression/statement node."""
+    if not isinstance(n, list) or not n or not isinstance(n[0], str):
+        return
+    t = n[0]
+    if t == "arr":
+        for i, e in enumerate(n[1]):
+            out.append((n[1], i))
+            _expr_slots(e, out)
+    elif t == "obj":
+        for kv in n[1]:
+            out.append((kv, 1))
+            _expr_slots(kv[1], out)
+    elif t == "op":
+        for i in (2, 3):
+            out.append((n, i))
+            _expr_slots(n[i], out)
+    elif t in ("not", "grp"):
+        out.append((n, 1))
+        _expr_slots(n[1], out)
+    elif t == "block":
+        for i, e in enumerate(n[1]):
+            out.append((n[1], i))
+            _expr_slots(e, out)
+    elif t == "if":
+        for pred, body in n[1]:
+            for i, e in enumerate(pred):
+                out.append((pred, i))
+                _expr_slots(e, out)
+            for i, e in enumerate(body):
+                out.append((body, i))
+                _expr_slots(e, out)
+        if n[2] is not None:
+            for i, e in enumerate(n[2]):
+                out.append((n[2], i))
+                _expr_slots(e, out)
+    elif t in ("assign", "massign"):
+        out.append((n, 2))
+        _expr_slots(n[2], out)
+    elif t == "assign2":
+        out.append((n, 3))
+        _expr_slots(n[3], out)
+    elif t == "return":
+        out.append((n, 1))
+        _expr_slots(n[1], out)
+    elif t == "abort":
+        if n[1] is not None:
+            out.append((n, 1))
+            _expr_slots(n[1], out)
+    elif t == "probe":
+        out.append((n, 2))
+        _expr_slots(n[2], out)
+    elif t == "call":
+        for a in n[2]:
+            out.append((a, 1))
+            _expr_slots(a[1], out)
+        if n[4] is not None:
+            for i, e in enumerate(n[4][1]):
+                out.append((n[4][1], i))
+                _expr_slots(e, out)
+
+
+def _child_exprs(n):
+    t = n[0]
+    if t == "op":
+        return [n[2], n[3]]
+    if t in ("not", "grp"):
+        return [n[1]]
+    if t == "block":
+        return [n[1][-1]] if n[1] else []
+    if t == "if":
+        out = []
+        for pred, body in n[1]:
+            if body:
+                out.append(["block", body] if len(body) > 1 else body[-1])
+        if n[2]:
+            out.append(["block", n[2]] if len(n[2]) > 1 else n[2][-1])
+        return out
+    if t == "arr":
+        return list(n[1])[:2]
+    if t == "obj":
+        return [e for _, e in n[1]][:2]
+    if t == "call":
+        return [a[1] for a in n[2]][:2]
+    if t in ("assign", "massign"):
+        return [n[2]]
+    return []
+
+
+SIMPLE_LITS = [["lit", None], ["lit", 1], ["lit", "a"], ["lit", True], ["lit", {"o": {}}], ["lit", []]]
+
+
+def shrink_exprs(stmts, still_fails, budget=120):
+    best = copy.deepcopy(stmts)
+    steps = 0
+    changed = True
+    while changed and steps < budget:
+        changed = False
+        top = ["block", best]
+        slots = []
+        _expr_slots(top, slots)
+        for k in range(len(slots)):
+            if steps >= budget:
+                break
+            cont, key = slots[k]
+            node = cont[key]
+            if not isinstance(node, list) or node[0] in ("lit", "var", "probe"):
+                continue
+            if node[0] == "path" and len(node[2]) <= 1:
+                continue
+            cands = _child_exprs(node) + SIMPLE_LITS
+            for c in cands:
+                if steps >= budget:
+                    break
+                if c == node:
+                    continue
+                cand = copy.deepcopy(best)
+                ctop = ["block", cand]
+                cslots = []
+                _expr_slots(ctop, cslots)
+                if k >= len(cslots):
+                    break
+                ccont, ckey = cslots[k]
+                ccont[ckey] = copy.deepcopy(c)
+                steps += 1
+                try:
+                    if still_fails(cand):
+                        best = cand
+                        changed = True
+                        break
+                except Exception:
+                    continue
+            if changed:
+                break
+    return best
+
+
+def shrink_full(stmts, still_fails, budget=200):
+    a = shrink(stmts, still_fails, budget=budget // 3)
+    b = shrink_exprs(a, still_fails, budget=budget // 2)
+    return shrink(b, still_fails, budget=budget // 4)
